@@ -198,6 +198,30 @@ pub fn gen_payload(l: &Layout, f: &Value, rng: &mut Rng, depth: usize) -> Vec<u8
                     time = tlv;
                 }
             }
+            if BCD_EDGE.with(|e| e.get()) && rng.chance(1, 3) {
+                // calendar boundaries: the first / last day and second chrono can represent and their neighbours, leap days, the
+                // 24th hour and the 60th minute / second - alone and in combination
+                let dates: [(u64, u64, u64); 12] = [(0, 1, 1), (9999, 12, 31), (10000, 1, 1), (262143, 12, 31), (262144, 1, 1), (2024, 2, 29),
+                                                    (2023, 2, 29), (2023, 12, 32), (2023, 13, 1), (2023, 0, 10), (2023, 10, 0), (1900, 2, 29)];
+                let times: [(u64, u64, u64); 8] = [(0, 0, 0), (23, 59, 59), (24, 0, 0), (23, 59, 60), (23, 60, 0), (24, 59, 59), (12, 0, 0), (99, 99, 99)];
+                let bcd = |digits: String| -> Vec<u8> {
+                    let mut d = digits;
+                    if d.len() % 2 == 1 {
+                        d.insert(0, '0');
+                    }
+                    d.as_bytes().chunks(2).map(|c| (c[0] - b'0') * 16 + (c[1] - b'0')).collect()
+                };
+                if rng.chance(2, 3) {
+                    let (y, m, d) = *rng.pick(&dates);
+                    let b = bcd(format!("{:04}{:02}{:02}", y, m, d));
+                    date = [vec![0x1f, 0x0e, b.len() as u8], b].concat();
+                }
+                if rng.chance(2, 3) {
+                    let (h, m, sec) = *rng.pick(&times);
+                    let b = bcd(format!("{:02}{:02}{:02}", h, m, sec));
+                    time = [vec![0x1f, 0x0f, b.len() as u8], b].concat();
+                }
+            }
             if rng.chance(1, 4) {
                 [time, date].concat()
             } else {
